@@ -36,11 +36,19 @@ MBOX = ("From alice@example.com Mon Jan  1 00:00:00 2024\nSubject: one\n\nbody o
 
 ZIP_HANDLERS = ("[url.HTMLURLHandler, gophermap.BuckGophermapHandler, mbox.MaildirFolderHandler, "
                 "mbox.MaildirMessageHandler, UMN.UMNDirHandler, html.HTMLFileTitleHandler, "
-                "mbox.MBoxMessageHandler, mbox.MBoxFolderHandler, ZIP.ZIPHandler, file.FileHandler]")
+                "mbox.MBoxMessageHandler, mbox.MBoxFolderHandler, ZIP.ZIPHandler, file.CompressedFileHandler, "
+                "file.FileHandler]")
 CONFIG = {
     "handlers.HandlerMultiplexer": {"handlers": ZIP_HANDLERS},
     "handlers.ZIP.ZIPHandler": {"enabled": "true"},
+    # served decompressed by an external program (a child process per request)
+    "handlers.file.CompressedFileHandler": {"decompressors": "{'gzip': 'zcat'}"},
 }
+
+
+def gz(data):
+    import gzip
+    return lat(gzip.compress(data, mtime=0))
 
 
 def lat(b):
@@ -73,6 +81,8 @@ def tree(tier="quick"):
         {"path": "gm/gophermap", "data": "iwelcome\n0small\t/small.txt\n1menu\t/menu\n"},
         {"path": "mail.mbox", "data": MBOX},
         {"path": "arch.zip", "data": make_zip()},
+        # 210 KB once decompressed (more than a pipe holds), in three long lines
+        {"path": "big.txt.gz", "data": gz((b"c" * 69999 + b"\n") * 3)},
     ]
     for e in tr:
         e["mtime"] = t
@@ -90,6 +100,7 @@ KINDS = [
     ("zip-member", "/arch.zip/inner.txt", {}),
     ("zip-listing", "/arch.zip", {}),
     ("html-document", "/page.html", {}),
+    ("decompressed-document", "/big.txt.gz", {}),
 ]
 PROTOS = ["gopher", "gopherplus", "http", "wap", "gemini", "spartan", "sgopher", "https"]
 
@@ -148,6 +159,7 @@ LIVE_DOC = "big.bin"
 def live_job(tier):
     size = (6 << 20) if tier == "quick" else (24 << 20)
     t = tree(tier) + [{"path": LIVE_DOC, "data": "x" * size},
+                      {"path": "huge.txt.gz", "data": gz(b"g" * size)},
                       {"path": "big.html", "data": "<html><head><title>Big</title></head><body>" + "y" * size + "</body></html>"}]
     clients = []
     protos = ["gopher", "gopherplus", "http", "spartan", "gemini", "https"] + (["sgopher", "wap"] if tier != "quick" else [])
@@ -163,6 +175,12 @@ def live_job(tier):
     data, tls = gen.request_bytes("http", "/" + LIVE_DOC)
     clients.append({"name": "http:/big.bin:stall", "proto": "http", "selector": "/" + LIVE_DOC, "data": lat(data),
                     "tls": False, "how": "stall", "read_before": 1000})
+    # a document that an external decompressor produces, over TLS (there the server relays the child's output itself)
+    for proto in ("gemini", "https"):
+        data, tls = gen.request_bytes(proto, "/huge.txt.gz")
+        for how, before in (("reset", 65536), ("close", 0)):
+            clients.append({"name": f"{proto}:/huge.txt.gz:{how}@{before}", "proto": proto, "selector": "/huge.txt.gz",
+                            "data": lat(data), "tls": tls, "how": how, "read_before": before})
     # a client that floods the header block (read during classification) and goes away
     for n in (101, 2000):
         flood = "GET /%s HTTP/1.0\r\n%s\r\n" % (LIVE_DOC, "".join("X-H%d: v\r\n" % i for i in range(n)))
@@ -186,6 +204,9 @@ def live_oracle(client, c):
                          f"the connection failure is logged as {cls}"))
         if addr != "127.0.0.1":
             hits.append((f"live-no-client-address:{client['proto']}", "an EXCEPTION record lacks the client address"))
+    if c.get("children"):
+        hits.append((f"live-child-left:{client['proto']}", "child processes of the server are still there after the "
+                     "connection: " + ", ".join("%s[%s]" % (x[2], x[1]) for x in c["children"])))
     if c["fd_left"]:
         hits.append((f"live-fd-leak:{client['how']}",
                      "descriptors of the server process still open after the connection (after gc.collect()): "
@@ -291,6 +312,9 @@ def run(tier):
                             f"the failure ({own}) is logged as {c}")
                     if not addr:
                         hit(f"no-client-address:{PCLASS[rq['proto']]}", "an EXCEPTION record after the fault lacks the client address")
+            if cs.get("children"):
+                hit(f"child-left:{rq['kind']}", "child processes of the request are still there (live or zombie) after "
+                    "handle() returned: " + ", ".join("%s[%s]" % (c[2], c[1]) for c in cs["children"]))
             if cs["fd_gc"]:
                 hit(f"fd-leak:{rq['kind']}", "descriptors still open after the request: " + ", ".join(cs["fd_gc"]))
             elif cs["fd_nogc"]:
@@ -314,7 +338,8 @@ def run(tier):
                        "error": {"EPIPE": "OSError(EPIPE, 'Broken pipe')", "ECONNRESET": "OSError(ECONNRESET, ...)",
                                  "TIMEOUT": "socket.timeout('timed out')"}[cs["cls"]],
                        "escaping_exception": cs["exc"], "records_after_fault": cs["records"], "log_tail": cs["log"],
-                       "descriptors_left": cs["fd_gc"], "writes_of_unfaulted_response": e["writes"],
+                       "descriptors_left": cs["fd_gc"], "children_left": cs.get("children"),
+                       "writes_of_unfaulted_response": e["writes"],
                        "cases_with_this_finding": len(lst), "tree": "harness/c20.py tree(tier)", "tier": tier, "config": CONFIG}, tag=tag)
     # ---------------- live leg: real server, real sockets ----------------
     lhits = {}
@@ -328,6 +353,7 @@ def run(tier):
         chk.violation({"what": what, "leg": "live", "client": cl, "server": "pygopherd.server.ThreadingTCPServer on 127.0.0.1, "
                        "ephemeral port, send/receive timeout 1 s, demo certificate", "bytes_received_by_client": c["received"],
                        "records": c["records"], "escaped": c["escaped"], "descriptors_left": c["fd_left"],
+                       "children_left": c.get("children"),
                        "log_tail": c["log"], "cases_with_this_finding": len(lst), "tier": tier,
                        "tree": "harness/c20.py live_job(tier)"}, tag=tag)
     cov["live"] = {"connections": len(live), "findings": {t: len(v) for t, v in lhits.items()},
@@ -376,7 +402,8 @@ def run(tier):
         "failure's class is whatever the kernel reports, so the oracle asks for a connection-failure class "
         "(OSError family) on every record instead of one given class; /proc/self/fd of the server process is compared "
         "with the baseline taken after a warm-up",
-        "handlers that hand the socket descriptor to a subprocess (decompression, exec, PYG) are not in the handler list used",
+        "file.CompressedFileHandler with {'gzip': 'zcat'} is in the handler list: after every faulted request the "
+        "children of the process (/proc/*/stat, live or zombie) must be none; exec / PYG handlers are not in the list",
     ]
     return chk.finish("proof")
 
